@@ -117,6 +117,20 @@ class UndoMonitor(explore.Monitor):
         if k in kinds:
           return "%s|%s|%s" % (clause, sig, k)
       return "%s|%s|record-edits-only" % (clause, sig)
+    if sig == "trigger-column-recalculated":
+      # the recorded root cause needs an undo that RE-ADDS records (their explicit trigger-column
+      # values are not protected on add); a trigger column recalculated by an undo that only
+      # updates records is a different defect
+      if "undo" in detail:
+        readds = any(a[0] in ("AddRecord", "BulkAddRecord", "ReplaceTableData", "AddTable")
+                     and not str(a[1]).startswith("_grist_") for a in detail["undo"])
+      else:
+        readds = bool(kinds & {"RemoveRecord", "BulkRemoveRecord", "ReplaceTableData", "RemoveTable"})
+      schema = bool(kinds & {"ModifyColumn", "RenameColumn", "RemoveColumn", "AddColumn",
+                             "RemoveTable", "RenameTable", "AddTable"}) or \
+          any("@_grist_" in k for b in history for k in triage.action_kinds(b))
+      return "%s|%s|%s" % (clause, sig, "undo-re-adds-records" if readds else
+                           "after-schema-change" if schema else "records-kept")
     return "%s|%s" % (clause, sig)
 
 
